@@ -29,4 +29,10 @@ let () = read_lines_iter (fun line ->
     (match lpmDecode (bytes_of_hex k) with
      | None -> print_endline "panic"
      | Some (d, pl) -> Printf.printf "%s %d\n" (hex_of_bytes d) (int_of_n pl))
+  | ["nipp"; fam; a; bits] ->
+    let is4 = (fam = "v4") in
+    let b = n_of_int (int_of_string bits) in
+    let addr = bytes_of_hex a in
+    Printf.printf "idx=%s lpm=%s\n" (hex_of_bytes (netip_prefix_key is4 addr b))
+      (match netip_prefix_lpm_key is4 addr b with None -> "panic" | Some k -> hex_of_bytes k)
   | _ -> Printf.printf "E unknown op: %s\n" line)
